@@ -101,7 +101,7 @@ impl Timer {
         &&& (o.reg_token() == Some(token) && o.dl() is Some && r->Ok_0 is Continue) ==> n.dl() is Some
     }
 //@ endregion
-//@ item src/sources/timer.rs / impl EventSource for Timer / fn process_events props=C05,C01,C07 ret=r
+//@ item src/sources/timer.rs / impl EventSource for Timer / fn process_events props=C05,C01,C07,C12 ret=r
 //@ rw R8 1 <<process_events<F>>> => <<process_events<CbF>>>
 //@ rw R8 1 <<mut callback: F,>> => <<mut callback: CbF,>>
 //@ rw R8 1 <<F: FnMut(Self::Event>> => <<CbF: FnMut(Self::Event>>
@@ -142,7 +142,7 @@ impl Timer {
         ensures
             final(self).reg_token() matches Some(t) ==> t.tok() == old(token_factory).next(),
 //@ enditem
-//@ item src/sources/timer.rs / impl EventSource for Timer / fn unregister props=C05,C07,C01
+//@ item src/sources/timer.rs / impl EventSource for Timer / fn unregister props=C05,C07,C01,C12
 //@ enditem
 //@ close
 
